@@ -432,6 +432,59 @@ class Tensor:
     def log1p(self):
         return (self + 1).log()
 
+    def __getattr__(self, name):
+        # (only reached for names the class does not define)
+        if name.startswith("__") or name in ("a", "dtype", "grad", "_version", "requires_grad"):
+            raise AttributeError(name)
+        raise UnsupportedOp("Tensor.%s is not modelled by symtorch" % name)
+
+    def _intop(self, o, f, what):
+        ob = o.a if isinstance(o, Tensor) else o
+        if self.a.dtype == object or (isinstance(ob, np.ndarray) and ob.dtype == object):
+            raise UnsupportedOp("bitwise %s on a non-integer tensor" % what)
+        return Tensor(_raw=_arr(f(self.a, ob)), dtype=self.dtype)
+
+    def __rshift__(self, o):
+        return self._intop(o, np.right_shift, ">>")
+
+    def __lshift__(self, o):
+        return self._intop(o, np.left_shift, "<<")
+
+    def __and__(self, o):
+        return self._intop(o, np.bitwise_and, "&")
+
+    def __or__(self, o):
+        return self._intop(o, np.bitwise_or, "|")
+
+    def __rand__(self, o):
+        return self._intop(o, lambda a, b: np.bitwise_and(b, a), "&")
+
+    def prod(self, dim=None, keepdim=False):
+        a = self.a if self.a.dtype == object or self.dtype.kind != "f" else _lift_arr(self.a)
+        if dim is None:
+            r = Fraction(1) if a.dtype == object else 1
+            for x in a.reshape(-1):
+                r = r * x
+            return Tensor(_raw=_arr(r), dtype=self.dtype)
+        r = np.multiply.reduce(a, axis=dim, keepdims=keepdim)
+        return Tensor(_raw=_arr(r), dtype=self.dtype)
+
+    def sign(self):
+        def sg(x):
+            if isinstance(x, (S.Sym, S.SymC)):
+                raise UnsupportedOp("sign of a symbolic value")
+            return Fraction((x > 0) - (x < 0)) if isinstance(x, Fraction) else (x > 0) - (x < 0)
+        return self._new(_map1(sg, self.a))
+
+    def addmm_(self, m1, m2, beta=1, alpha=1):
+        return self._inplace(self * beta + matmul(m1, m2) * alpha)
+
+    def addmm(self, m1, m2, beta=1, alpha=1):
+        return self * beta + matmul(m1, m2) * alpha
+
+    def repeat_interleave(self, repeats, dim=None):
+        return repeat_interleave(self, repeats, dim)
+
     def log1p_(self):
         return self._inplace(self.log1p())
 
@@ -1253,6 +1306,27 @@ def log1p(x):
     return x.log1p()
 
 
+def addmm(inp, m1, m2, beta=1, alpha=1, out=None):
+    return _write_out(inp * beta + matmul(m1, m2) * alpha, out)
+
+
+def sign(x):
+    return x.sign()
+
+
+def prod(x, dim=None, keepdim=False):
+    return x.prod(dim, keepdim)
+
+
+def repeat_interleave(x, repeats, dim=None):
+    reps = repeats.a if isinstance(repeats, Tensor) else repeats
+    if isinstance(reps, np.ndarray) and reps.dtype == object:
+        raise UnsupportedOp("repeat_interleave with symbolic counts")
+    reps = [_pyint(r) for r in np.asarray(reps).reshape(-1)] if isinstance(reps, np.ndarray) else _pyint(reps)
+    a = x.a if dim is not None else x.a.reshape(-1)
+    return x._new(np.repeat(a, reps, axis=0 if dim is None else dim))
+
+
 def _rem(a, b):
     if isinstance(a, Fraction) and isinstance(b, Fraction):
         return a - b * (a / b).__floor__()  # Python / torch.remainder convention: the sign of the divisor
@@ -1687,28 +1761,35 @@ def install():
         return me
     if "torch" in sys.modules:
         raise RuntimeError("real torch already imported in this process")
-    nn = types.ModuleType("torch.nn")
+    class _Mod(types.ModuleType):
+        def __getattr__(self, name):
+            if name.startswith("__"):
+                raise AttributeError(name)
+            raise UnsupportedOp("%s.%s is not modelled by symtorch" % (self.__name__, name))
+
+    types_ModuleType = _Mod
+    nn = types_ModuleType("torch.nn")
     nn.Module, nn.Parameter = Module, Parameter
-    F = types.ModuleType("torch.nn.functional")
+    F = types_ModuleType("torch.nn.functional")
     F.softplus, F.linear, F.sigmoid = softplus, linear, sigmoid
     nn.functional = F
-    utils = types.ModuleType("torch.nn.utils")
+    utils = types_ModuleType("torch.nn.utils")
     utils.parameters_to_vector = parameters_to_vector
     utils.vector_to_parameters = vector_to_parameters
-    cp = types.ModuleType("torch.nn.utils.convert_parameters")
+    cp = types_ModuleType("torch.nn.utils.convert_parameters")
     cp._check_param_device = _check_param_device
     cp.parameters_to_vector = parameters_to_vector
     cp.vector_to_parameters = vector_to_parameters
     utils.convert_parameters = cp
     nn.utils = utils
-    optim = types.ModuleType("torch.optim")
+    optim = types_ModuleType("torch.optim")
     optim.SGD, optim.Optimizer = SGD, Optimizer
-    lrs = types.ModuleType("torch.optim.lr_scheduler")
+    lrs = types_ModuleType("torch.optim.lr_scheduler")
     lrs.StepLR = StepLR
     lrs._LRScheduler = _LRScheduler
     optim.lr_scheduler = lrs
-    dist = types.ModuleType("torch.distributions")
-    dutils = types.ModuleType("torch.distributions.utils")
+    dist = types_ModuleType("torch.distributions")
+    dutils = types_ModuleType("torch.distributions.utils")
     dutils.probs_to_logits = probs_to_logits
     dist.utils = dutils
     dist.Bernoulli = Bernoulli
